@@ -29,7 +29,10 @@ Prim(p) == [k |-> "prim", p |-> p]
 NoBase == [k |-> "none"]
 Obj(name, ns, fields) == [k |-> "obj", name |-> name, ns |-> ns, fields |-> fields, hasbase |-> FALSE, base |-> NoBase, subs |-> <<>>]
 Sub(name, ns, fields, base) == [k |-> "obj", name |-> name, ns |-> ns, fields |-> fields, hasbase |-> TRUE, base |-> base, subs |-> <<>>]
-ItemOf(t) == IF t.k = "prim" THEN TypeName(t.p) ELSE t.name
+\* the PUBLIC type name of a class (two classes in different namespaces may share it; `name` identifies the class in this model)
+TN(t) == IF "tname" \in DOMAIN t THEN t.tname ELSE t.name
+WithTN(t, tn) == [k \in DOMAIN t \cup {"tname"} |-> IF k = "tname" THEN tn ELSE t[k]]
+ItemOf(t) == IF t.k = "prim" THEN TypeName(t.p) ELSE TN(t)
 Arr(t) == [k |-> "arr", of |-> t, item |-> ItemOf(t), itemns |-> IF t.k = "prim" /\ t.p = "Uuid" THEN "http://spyne.io/schema" ELSE ""]
 Attr(t) == [k |-> "attr", of |-> t]
 F(n, t, min, max) == [n |-> n, t |-> t, min |-> min, max |-> max]
